@@ -604,3 +604,141 @@ class BytesOf:
 
     def __init__(self, s):
         self.s = s
+
+
+# --------------------------------------------------------------------------------------------------------------
+# Mutable object graphs (builders): materialised nested objects, concrete-length lists of them, defunctionalised closures
+class SymClosure:
+    """A closure stored in a field, defunctionalised: `tag` 0 = None, k >= 1 = the lambda of the k-th site (a function of
+    the repository that contains exactly one lambda); `slots` are the values of the site function's non-self parameters
+    (by position) that the lambda captured; `owner` is the object bound to the site function's `self`."""
+
+    def __init__(self, tag, sites, slots, owner=None):
+        self.tag = tag
+        self.sites = list(sites)
+        self.slots = list(slots)
+        self.owner = owner
+
+    def __repr__(self):
+        return "<SymClosure tag=%s>" % (self.tag,)
+
+
+class ClosureOf(Kind):
+    def __init__(self, sites, slots):
+        self.sites = list(sites)      # qualified names of the functions whose (single) lambda may be stored
+        self.slot_kinds = list(slots)
+
+    def build(self, ctx, mk):
+        tag = mk("!tag", z3.IntSort())
+        ctx.assume(z3.And(tag >= 0, tag <= len(self.sites)))
+        slots = [k.build(ctx, lambda s, so, i=i: mk("!slot%d%s" % (i, s), so)) for i, k in enumerate(self.slot_kinds)]
+        for v in slots:
+            ctx.engine.assume_wellformed(ctx, v)
+        return SymClosure(tag, self.sites, slots)
+
+    def sort(self):
+        raise EngineLimit("ClosureOf has no single sort")
+
+
+class MutObjOf(Kind):
+    """A materialised (mutable) object of exactly the given class; its fields are built from the class specification
+    (or from `overrides`).  Closures stored in its fields are bound to it."""
+
+    def __init__(self, clsname: str, **overrides):
+        self.clsname = clsname
+        self.overrides = overrides
+
+    def build(self, ctx, mk):
+        eng = ctx.engine
+        cls = eng.repo.cls(self.clsname)
+        ref = mk("", RefSort)
+        ctx.assume(eng.tag_fn(ref) == eng.class_id(cls))
+        kinds = dict(eng.all_field_kinds(cls))
+        kinds.update(self.overrides)
+        fields = {}
+        obj = Obj(cls, True, ref, fields, ctx)
+        for n, k in kinds.items():
+            if isinstance(k, Kind):
+                v = k.build(ctx, lambda s, so, n=n: mk("." + n + s, so))
+                eng.assume_wellformed(ctx, v)
+            else:
+                v = k
+            fields[n] = v
+        bind_owner(obj)
+        return obj
+
+    def sort(self):
+        raise EngineLimit("MutObjOf has no single sort")
+
+    def __repr__(self):
+        return "%s%s" % (self.clsname.split(".")[-1], "{%s}" % ",".join("%s=%r" % kv for kv in sorted(self.overrides.items()))
+                         if self.overrides else "")
+
+
+class ListK(Kind):
+    """A Python list of concrete length whose items are built from the given kinds."""
+
+    def __init__(self, *kinds):
+        self.kinds = list(kinds)
+
+    def build(self, ctx, mk):
+        return PyList([k.build(ctx, lambda s, so, i=i: mk("[%d]%s" % (i, s), so)) for i, k in enumerate(self.kinds)])
+
+    def __repr__(self):
+        return "list-of-%d" % len(self.kinds)
+
+    def sort(self):
+        raise EngineLimit("ListK has no single sort")
+
+
+def bind_owner(obj: "Obj"):
+    """Closures stored in fields of a materialised object capture that object as `self`; owned lists may be mutated."""
+    for v in obj.fields.values():
+        if isinstance(v, SymClosure) and v.owner is None:
+            v.owner = obj
+        if isinstance(v, SymSeq):
+            v.owned = True
+
+
+class Recorder:
+    """An abstract callable received from the environment (e.g. a print handler): every call is recorded
+    (positional arguments) in `calls`; it returns None and raises nothing (assumed for handlers)."""
+
+    def __init__(self, name="callable"):
+        self.name = name
+        self.calls = PyList([])
+
+    def __repr__(self):
+        return "<Recorder %s %d calls>" % (self.name, len(self.calls.items))
+
+
+class RecorderK(Kind):
+    def __init__(self, name="callable"):
+        self.name = name
+
+    def build(self, ctx, mk):
+        return Recorder(self.name)
+
+    def sort(self):
+        raise EngineLimit("RecorderK has no single sort")
+
+
+class TupleK(Kind):
+    """A Python tuple of fixed length whose components are built from the given kinds (a Const for fixed values)."""
+
+    def __init__(self, *kinds):
+        self.kinds = list(kinds)
+
+    def build(self, ctx, mk):
+        out = []
+        for i, k in enumerate(self.kinds):
+            v = k.build(ctx, lambda s, so, i=i: mk("(%d)%s" % (i, s), so))
+            ctx.engine.assume_wellformed(ctx, v)
+            out.append(v)
+        return tuple(out)
+
+    def sort(self):
+        raise EngineLimit("TupleK has no single sort")
+
+    def __repr__(self):
+        return "tuple-of-%d" % len(self.kinds)
